@@ -95,12 +95,18 @@ type VerifManager struct {
 	cancel func()
 }
 
-func VerifNewManager(machinep, maxp int, maxLoad float64) *VerifManager {
+func VerifNewManager(machinep, maxp int, maxLoad float64, fastKeepalive ...bool) *VerifManager {
 	system := testsystem.New()
 	system.Machineprocs = machinep
 	system.KeepalivePeriod = time.Second
 	system.KeepaliveTimeout = 5 * time.Second
 	system.KeepaliveRpcTimeout = time.Second
+	if len(fastKeepalive) > 0 && fastKeepalive[0] {
+		// cases that kill machines: the loss must be noticed quickly
+		system.KeepalivePeriod = 200 * time.Millisecond
+		system.KeepaliveTimeout = time.Second
+		system.KeepaliveRpcTimeout = 200 * time.Millisecond
+	}
 	b := bigmachine.Start(system)
 	ctx, ctxcancel := context.WithCancel(context.Background())
 	m := newMachineManager(b, nil, nil, maxp, maxLoad, &worker{MachineCombiners: false})
